@@ -52,7 +52,9 @@ def _config(md, tier, varying_section=False):
 def strat_sources(tier):
     def with_src(md):
         neq = cases.model_neq(md)
-        return st.builds(lambda cfg, src: dict(cfg, model=md, source=src), _config(md, tier), st.lists(_src_entry(), min_size=neq, max_size=neq))
+        # the nozzle accepts (and documents, by enumerating the user's list) lists shorter than the number of equations: the missing entries are None
+        nmin = 1 if md["name"] == "nozzle" else neq
+        return st.builds(lambda cfg, src: dict(cfg, model=md, source=src), _config(md, tier), st.lists(_src_entry(), min_size=nmin, max_size=neq))
     return st.one_of(gen.model_euler1d(), gen.model_shallowwater(), gen.model_nozzle(varying=True)).flatmap(with_src)
 
 
@@ -95,7 +97,8 @@ def check_sources(case):
     r1, _ = _rhs(disc1, model1, mesh1, md, prim)
     xc = 0.5 * (xf[1:] + xf[:-1])
     worst = 0.0
-    for i, d in enumerate(src):
+    src_full = list(src) + [None] * (len(r0) - len(src))
+    for i, d in enumerate(src_full):
         diff = r1[i] - r0[i]
         if d is None:
             require(np.array_equal(r1[i], r0[i]), "none-source", "a None source entry changed equation %d" % i)
@@ -116,7 +119,7 @@ def check_sources(case):
         if cache and "t" in cache:
             require(np.array_equal(cache["t"], cache["keep"]), "source-table-modified", "the array returned by a tabulated source function was modified by the operator")
     nsrc = sum(1 for d in src if d is not None)
-    return dict(nontrivial=nsrc > 0, labels=["model:" + md["name"], "nsrc:%d" % nsrc, "num:" + case["num"]["name"], "bc:" + case["bcL"]["type"], "mesh:" + case["mesh"]["kind"]])
+    return dict(nontrivial=nsrc > 0, labels=["model:" + md["name"], "nsrc:%d" % nsrc, "short-list" if len(src) < len(r0) else "full-list", "num:" + case["num"]["name"], "bc:" + case["bcL"]["type"], "mesh:" + case["mesh"]["kind"]])
 
 
 def _dsection(desc, x):
